@@ -29,6 +29,14 @@ Fixpoint pg_aux (n : nat) (x : N) : bytes :=
   end.
 Definition pg (seed len : N) : bytes := pg_aux (N.to_nat len) (N.lor seed 1).
 
+(* pgb seed len: payloads of megabytes — the 4096-byte block pg seed 4096 repeated
+   and cut to len (the harness's bigBytes); generating every byte by xs32 would
+   dominate the run *)
+Fixpoint rep_app (n : nat) (blk acc : bytes) : bytes :=
+  match n with O => acc | S k => rep_app k blk (blk ++ acc) end.
+Definition pgb (seed len : N) : bytes :=
+  firstn (N.to_nat len) (rep_app (N.to_nat (len / 4096 + 1)) (pg seed 4096) []).
+
 (* an observed byte string: literal, or length and CRC-32C (computed by Go's
    hash/crc32 in the harness) when it is long *)
 Inductive blob := Lit (b : bytes) | Dig (len crc : N).
